@@ -2,6 +2,7 @@ pub mod c01;
 pub mod c01_carriers;
 pub mod c03;
 pub mod c11;
+pub mod c15;
 
 use crate::runner::{Report, Tier};
 use serde_json::Value;
@@ -20,5 +21,6 @@ pub fn registry() -> Vec<(&'static str, CheckFn)> {
         ("C01", c01::run as CheckFn),
         ("C03", c03::run as CheckFn),
         ("C11", c11::run as CheckFn),
+        ("C15", c15::run as CheckFn),
     ]
 }
